@@ -167,7 +167,7 @@ def values_for(rng, name, one_shot=False):
                            OS((1, 2)), OS((1, 2, 128)), OS((1.5,)), OS((-1, 3)), OS(()), OS((5, 'a')), OS((0, 127, 64, 3)),
                            OS((300,)), OS((1, None))] + WRONG)
     if name == 'time':
-        return rng.choice([0, 1, -5, 2.5, 10 ** 20, 'x', None, [1], True])
+        return rng.choice([0, 1, -5, 2.5, 10 ** 20, 'x', None, [1], True, b'12', b'2.5', b' 3 ', '12', '2.5', b'', (1,), b'\x01'])
     if name in msgs.RANGES:
         lo, hi = msgs.RANGES[name]
         return rng.choice([lo - 1, lo, lo + 1, (lo + hi) // 2, hi - 1, hi, hi + 1] * 3 + WRONG)
